@@ -37,17 +37,19 @@ M = [
  ("c04-270", ["C04"], R+"decode/cpr.rs", "if lat_even >= 270.0 {", "if lat_even > 270.0 {"),
  ("c04-lon-wrap", ["C04"], R+"decode/cpr.rs", "    if lon >= 180.0 {\n        lon -= 360.0;\n    }\n", "    if lon > 180.0 {\n        lon -= 360.0;\n    }\n"),
  ("c04-half", ["C04"], R+"decode/cpr.rs", "let j = libm::floor(59.0 * cpr_lat_even - 60.0 * cpr_lat_odd + 0.5);", "let j = libm::floor(59.0 * cpr_lat_even - 60.0 * cpr_lat_odd + 0.499);"),
+ ("c04-no-round", ["C04", "C06"], R+"decode/cpr.rs", "let j = libm::floor(59.0 * cpr_lat_even - 60.0 * cpr_lat_odd + 0.5);", "let j = libm::floor(59.0 * cpr_lat_even - 60.0 * cpr_lat_odd);"),
  ("c04-same-parity", ["C04"], R+"decode/cpr.rs", "        ) => (even, odd),\n        _ => return None,", "        ) => (even, odd),\n        (a, b) => (a, b),"),
  ("c05-halfcell-lat", ["C05"], R+"decode/cpr.rs", "    if fabs(lat - latitude_ref) > d_lat / 2. {\n        return None;\n    }\n\n    let ni = if msg.parity == CPRFormat::Even {\n        nl(lat)\n    } else {\n        nl(lat) - 1\n    };\n    let d_lon = if ni > 0 { 360.", "    if fabs(lat - latitude_ref) > d_lat {\n        return None;\n    }\n\n    let ni = if msg.parity == CPRFormat::Even {\n        nl(lat)\n    } else {\n        nl(lat) - 1\n    };\n    let d_lon = if ni > 0 { 360."),
  ("c05-surface-half", ["C05"], R+"decode/cpr.rs", "    let m = libm::floor(0.5 + longitude_ref / d_lon - cpr_lon);\n    let lon = d_lon * (m + cpr_lon);\n\n    // Check that the answer is not more than half a cell away\n    if fabs(lon - longitude_ref) > d_lon / 2. {\n        return None;\n    }\n\n    Some(Position {\n        latitude: lat,\n        longitude: lon,\n    })\n}\n\npub type UpdateIf", "    let m = libm::floor(longitude_ref / d_lon - cpr_lon);\n    let lon = d_lon * (m + cpr_lon);\n\n    // Check that the answer is not more than half a cell away\n    if fabs(lon - longitude_ref) > d_lon / 2. {\n        return None;\n    }\n\n    Some(Position {\n        latitude: lat,\n        longitude: lon,\n    })\n}\n\npub type UpdateIf"),
  ("c05-odd-ni", ["C05", "C06"], R+"decode/cpr.rs", "        nl(lat) - 1\n    };\n    let d_lon = if ni > 0 { 90.", "        nl(lat)\n    };\n    let d_lon = if ni > 0 { 90."),
  # ---- C06 trajectory
  ("c06-pair-window-60", ["C06"], R+"decode/cpr.rs", "if (timestamp - latest_timestamp) < 10. {", "if (timestamp - latest_timestamp) < 60. {"),
- ("c06-ref-window-1800", ["C06"], R+"decode/cpr.rs", "if pos.is_none() & ((timestamp - latest.timestamp) < 180.) {", "if pos.is_none() & ((timestamp - latest.timestamp) < 1800.) {"),
+ ("c06-ref-window-1800", ["C06"], R+"decode/cpr.rs", "if pos.is_none() & (fabs(timestamp - latest.timestamp) < 180.) {", "if pos.is_none() & (fabs(timestamp - latest.timestamp) < 1800.) {"),
  ("c06-no-50km-gate", ["C06"], R+"decode/cpr.rs", "if dist_haversine(&new_pos, &latest_pos) > 50. {", "if dist_haversine(&new_pos, &latest_pos) > 50000. {"),
  ("c06-shared-state", ["C06"], R+"decode/cpr.rs", "let latest = aircraft.entry(*icao24).or_insert(AircraftState {", "let latest = aircraft.entry(ICAO(icao24.0 & 0xffff00)).or_insert(AircraftState {"),
  ("c06-no-order-guard", ["C06"], R+"decode/cpr.rs", "            if (timestamp - latest_timestamp) < 0. {\n                return;\n            }\n", ""),
- ("c06-surface-window", ["C06"], R+"decode/cpr.rs", "(latest.pos, (timestamp - latest.timestamp) < 180.)", "(latest.pos, (timestamp - latest.timestamp) < 18000.)"),
+ ("c06-surface-window", ["C06"], R+"decode/cpr.rs", "(latest.pos, fabs(timestamp - latest.timestamp) < 180.)", "(latest.pos, fabs(timestamp - latest.timestamp) < 18000.)"),
+ ("c06-late-report", ["C06"], R+"decode/cpr.rs", "if pos.is_none() & (fabs(timestamp - latest.timestamp) < 180.) {", "if pos.is_none() & ((timestamp - latest.timestamp) < 180.) {"),
  # ---- C07 JSON
  ("c07-duplicate-key", ["C07"], R+"decode/bds/bds06.rs", '#[serde(rename = "NUCp")]', '#[serde(rename = "track")]'),
  ("c07-icao-upper", ["C07"], R+"decode/mod.rs", 'let icao = format!("{:06x}", &self.0);\n        serializer.serialize_str(&icao)\n    }\n}\n\nimpl<\'de> Deserialize', 'let icao = format!("{:06X}", &self.0);\n        serializer.serialize_str(&icao)\n    }\n}\n\nimpl<\'de> Deserialize'),
@@ -69,6 +71,16 @@ M = [
  ("c13-q-offset", ["C13", "C03"], R+"decode/mod.rs", "if n > 40 {\n                Ok(n * 25 - 1000) // 25 ft interval", "if n > 39 {\n                Ok(n * 25 - 975) // 25 ft interval"),
  # ---- C18 time
 ]
+
+# Changes that turn out NOT to break the property they were aimed at (kept: a check that "caught" one of these would
+# be raising a false alarm). name -> why the property still holds
+EQUIVALENT = {
+ "c04-half": "the rounded quantity is within 4.5e-4 of an integer for two reports of one position (quantisation), and within 0.32 of one for reports 10 s apart at 700 kt: 0.499 instead of 0.5 never changes j inside the property's domain",
+ "c05-halfcell-lat": "j is obtained by rounding, so |lat - ref| <= d_lat/2 holds by construction: the half-cell test is redundant and widening it changes nothing",
+ "c06-no-50km-gate": "inside the domain (<= 700 kt, truthful or locally exchanged timestamps) every candidate position that reaches the gate is already correct; the gate is purely defensive",
+ "c09-straddle": "a pair straddling the end of the frame is not collapsed, the frame is still yielded intact and the stray 0x1A is discarded by the resynchronisation branch: same output",
+ "c14-stride-start": "shifts every registration of one German block by one address: still total, injective and German (C14 does not state which registration an address gets)",
+}
 
 def run(*a, **k):
     return subprocess.run(a, cwd=WT, check=True, capture_output=True, text=True, **k).stdout
@@ -103,6 +115,8 @@ def main():
         run("git", "checkout", "--", path)
         open(os.path.join(OUT, name + ".diff"), "w").write(d)
         index[name] = {"expected": props, "file": path}
+        if name in EQUIVALENT:
+            index[name]["equivalent"] = EQUIVALENT[name]
     json.dump(index, open(os.path.join(OUT, "INDEX.json"), "w"), indent=1, sort_keys=True)
     print(len(index), "patches written")
 
